@@ -212,3 +212,18 @@ class FuelList(list):
 
 def sym_genes(ctx: Ctx, n: int, hi: int = sys.maxsize, tag: str = "gene") -> list:
     return [ctx.int(0, hi, tag) for _ in range(n)]
+
+
+def same_value(a, b) -> bool:
+    """True when a and b are the same object or the same solver term (no fork, no solver call):
+    deepcopy of a symbolic gene yields a new proxy object around the same z3 term."""
+    if a is b:
+        return True
+    va, vb = getattr(a, "var", None), getattr(b, "var", None)
+    if va is not None and vb is not None:
+        import z3
+        from crosshair.tracers import NoTracing
+
+        with NoTracing():
+            return bool(z3.eq(va, vb))
+    return False
